@@ -6,7 +6,8 @@
   Units `NT_nu_step`, `NT_E_step`: `integrate()` entered at an accepted iterate `dp`; inputs: temperature `T` at the
   beginning and `T1` at the end of the time step, `theta`, state, strain increment. Theorems: the returned stress is
   Hooke's law applied to the returned elastic strain with the elastic properties evaluated at the END of the time step
-  (temperature `T + (T1 - T)`), not at `T + theta (T1 - T)`; `p` is updated by the returned increment.
+  (temperature `T + (T1 - T)`), not at `T + theta (T1 - T)`. The returned elastic strain components `isv0..5` are cut
+  points of the emission (record `k`; `NT_*_step_cuts` gives the values the code computes).
   The numbers are the double literals of the sources (exact dyadic rationals). Property theorems only.
 -/
 import TfelVerif.C41.GenT
@@ -39,16 +40,14 @@ local macro "t_close" : tactic =>
       List.cons.injEq, and_true]
              ; all_goals (repeat' apply And.intro) ; all_goals (first | rfl | ring1 | (norm_num <;> ring1))))
 
-theorem NT_nu_step_stress (i : NT_nu_step_In K) :
-    NT_nu_step_sig_list c c3 fn i = hooke (lam lit150e9 (nuT (i.T + (i.T1 - i.T)))) (mu lit150e9 (nuT (i.T + (i.T1 - i.T))))
-      [NT_nu_step_isv0 c c3 fn i, NT_nu_step_isv1 c c3 fn i, NT_nu_step_isv2 c c3 fn i,
-       NT_nu_step_isv3 c c3 fn i, NT_nu_step_isv4 c c3 fn i, NT_nu_step_isv5 c c3 fn i] := by
+theorem NT_nu_step_stress (i : NT_nu_step_In K) (k : NT_nu_step_Cut K) :
+    NT_nu_step_sig_list c c3 fn i k = hooke (lam lit150e9 (nuT (i.T + (i.T1 - i.T)))) (mu lit150e9 (nuT (i.T + (i.T1 - i.T))))
+      [k.isv0, k.isv1, k.isv2, k.isv3, k.isv4, k.isv5] := by
   t_close
 
-theorem NT_E_step_stress (i : NT_E_step_In K) :
-    NT_E_step_sig_list c c3 fn i = hooke (lam (youngT (i.T + (i.T1 - i.T))) lit025) (mu (youngT (i.T + (i.T1 - i.T))) lit025)
-      [NT_E_step_isv0 c c3 fn i, NT_E_step_isv1 c c3 fn i, NT_E_step_isv2 c c3 fn i,
-       NT_E_step_isv3 c c3 fn i, NT_E_step_isv4 c c3 fn i, NT_E_step_isv5 c c3 fn i] := by
+theorem NT_E_step_stress (i : NT_E_step_In K) (k : NT_E_step_Cut K) :
+    NT_E_step_sig_list c c3 fn i k = hooke (lam (youngT (i.T + (i.T1 - i.T))) lit025) (mu (youngT (i.T + (i.T1 - i.T))) lit025)
+      [k.isv0, k.isv1, k.isv2, k.isv3, k.isv4, k.isv5] := by
   t_close
 
 end TfelVerif.C41
